@@ -162,7 +162,10 @@ def rewrite_case(rng, case):
             return {'list': [ns_ctx(y) for y in x['list']]}
         c['context'] = ns_ctx(c.get('context'))
         prefix = ns + '::'
-        moves.append('mount:' + ns)
+        # K4: a name written in a declaration that starts with the mounting namespace is taken for a full name
+        collides = any('name' in r and not r['name'].startswith('~') and r['name'].startswith(ns + '::')
+                       for k in c['classes'] for r in list(k['meta_inputs']) + [i['ref'] for i in k['param_inputs']])
+        moves.append('mount:' + ns + (':reference-names-mount-namespace' if collides else ''))
     return c, moves, prefix
 
 
@@ -240,6 +243,19 @@ class Rewrites(Suite):
                         rewr=dict(classes=oc, files=dict(side, **{'wrapped/base.json': inner}), context=None,
                                   base={'name': 'wrapper', 'data': {'uses': 'wrapped/base.json as mnt'}}),
                         moves=['mount:mnt'], prefix='mnt::'))
+        # an input named with a sub-namespace (`n::n`, `n::g:n`, a required one too) in a pipeline that is then mounted
+        # under a namespace of that very name: the name is taken for a full name and the input is rebound (K4)
+        for ref, required in (('n::n', False), ('n::g:n', False), ('sub::feat', True)):
+            nsname = ref.split('::')[0]
+            nc = [dict(K(0, 'K00', group='g', params=[P('p')]), name='n'),
+                  dict(K(1, 'K01', param_inputs=[dict(ref={'name': ref}, default=None if required else ['dflt'])]), name='xn'),
+                  dict(K(2, 'Feat', params=[P('p')]), name='feat')]
+            inner = {'tasks': ['@M.K00', '@M.K01'], 'p': 1, **({'uses': 'sub.json as sub'} if required else {})}
+            files = {'sub.json': {'tasks': ['@M.Feat'], 'p': 2}} if required else {}
+            out.append(dict(orig=dict(classes=nc, files=dict(files), context=None, base={'name': 'm', 'data': inner}),
+                            rewr=dict(classes=nc, files=dict(files, **{'wrapped/base.json': inner}), context=None,
+                                      base={'name': 'wrapper', 'data': {'uses': f'wrapped/base.json as {nsname}'}}),
+                            moves=[f'mount:{nsname}:reference-names-mount-namespace'], prefix=f'{nsname}::'))
         # two used config files of one base name in different directories; renaming one of them moves nothing
         pc = [dict(K(0, 'PartEu', params=[P('sel')]), name='part_eu'), dict(K(1, 'PartUs', params=[P('sel')]), name='part_us'),
               dict(K(2, 'Collect', meta_inputs=[{'name': '~part_.*'}]), name='collect'),
@@ -489,6 +505,15 @@ def quoted_placeholder_class(violation, known):
     together with a quote or backslash"""
     return (violation.get('suite') == 'rewritings'
             and violation.get('case', {}).get('moves') == ['global-vars:given-or-not:quoted-placeholder-text'])
+
+
+def mount_namespace_reference_class(violation, known):
+    """K4: the pipeline is mounted under a namespace, and a name written in an input declaration starts with that very
+    namespace (`n::n` mounted `as n`): the code takes it for a full name; the model does the same, the rewriting
+    oracle sees the location move"""
+    return (violation.get('suite') == 'rewritings' and not violation.get('model_disagrees')
+            and any(str(m).endswith(':reference-names-mount-namespace') for m in violation.get('case', {}).get('moves', []))
+            and 'the location of' in str(violation.get('oracle', '')))
 
 
 def path_default_class(violation, known):
@@ -815,7 +840,8 @@ class C02(Prop):
     suites = [Rewrites(), Registry(), ObjectArgOrder(), HashSeeds(), PathDefaults(), IgnoredValues(), ValueSources(), SameNamedClasses(), DataDirs(), Naming()]
     known_classes = {'object-argument-order': object_order_class, 'object-argument-order-registry': object_arg_order_class,
                      'hash-seed-set-attribute': hash_seed_class, 'placeholder-equals-default': placeholder_default_class,
-                     'path-default-repr': path_default_class, 'quoted-placeholder-text': quoted_placeholder_class}
+                     'path-default-repr': path_default_class, 'quoted-placeholder-text': quoted_placeholder_class,
+                     'reference-names-mount-namespace': mount_namespace_reference_class}
     trusted_base = ['the interpreter hash seed is not in the model (partial): it is exercised by fresh interpreters only']
     assumptions = ['values are JSON-like or objects rendered by their own repr']
 
